@@ -538,6 +538,14 @@ func TestReplay(t *testing.T) {
 		if msg, _ := runFlags(c); msg != "" {
 			ev.Failf(t, "TestFlags", c, "%s", msg)
 		}
+	case "TestHostileLineDirective":
+		var c LineDirCase
+		if err := json.Unmarshal(r.Case, &c); err != nil {
+			t.Fatal(err)
+		}
+		if msg, _ := runLineDir(c); msg != "" {
+			ev.Failf(t, "TestHostileLineDirective", c, "%s", msg)
+		}
 	case "TestHostileNames":
 		var c NamesCase
 		if err := json.Unmarshal(r.Case, &c); err != nil {
